@@ -10,6 +10,8 @@ CONSTANTS
   MinUnits = 5
   MaxDepth = 2
   MaxActs = 1
+  MaxNL = 2
+  MaxLines = 2
   Signs = {"-", "+"}
   AllowCall = TRUE
   AllowList = TRUE
